@@ -1,6 +1,10 @@
 /-
-  Model of pgdump/pgdump.go: withDefaults, DumpDataDir, DumpDatabaseFromFiles, dumpTable — the tree after
-  fixes/cluster/01 (tables are visited in filenode order instead of map-iteration order).
+  Model of pgdump/pgdump.go: withDefaults, DumpDataDir, DumpDatabaseFromFiles, dumpTable, readTableRows — the tree
+  after fixes/cluster/01 (tables are visited in filenode order instead of map-iteration order) and 09 (every tuple
+  of a table without columns is the empty row).
+
+  * `ReadTuples` (heap.go, area `heap`) is `Model.readTuples` itself, not a parameter: readTableRows uses it only
+    to count the visible tuples of a table without columns.
 
   * `rr` = the row reader (heap.go:ReadRows), a parameter.
   * the file system is `fs : path ↦ Option content` (`os.ReadFile`; an error = `none`); a `FileReader`
@@ -36,6 +40,15 @@ def sortNat (l : List Nat) : List Nat := l.foldr insertNat []
 
 abbrev FileReader := Nat → Option Bytes
 
+/-- pgdump.go:readTableRows (fixes/cluster/09) — ReadRows for a table with columns; for a table without columns one
+empty row per visible tuple (DecodeTuple answers nil for a tuple without data and without columns, which ReadRows
+skips) -/
+def readTableRows (rr : RowReader) (data : Bytes) (cols : List Column) : M (List Row) :=
+  if cols.length > 0 then rr data cols true
+  else do
+    let es ← readTuples data true
+    pure (es.map fun _ => [])
+
 /-- pgdump.go:dumpTable -/
 def dumpTable (rr : RowReader) (filenode : Nat) (info : TableInfo) (attrs : List AttrInfo)
     (reader : Option FileReader) (opts : Options) : M TableDump :=
@@ -51,7 +64,7 @@ def dumpTable (rr : RowReader) (filenode : Nat) (info : TableInfo) (attrs : List
       if data.length = 0 then pure t
       else do
         let mcols : List Column := attrs.map fun a => ⟨a.name, a.typid, a.len, a.num, a.align⟩
-        let rows ← rr data mcols true
+        let rows ← readTableRows rr data mcols
         pure { t with rows := rows, rowCount := rows.length }
 
 /-- the three `continue` filters of DumpDatabaseFromFiles -/
